@@ -33,8 +33,12 @@ fn key(path: &Path) -> String {
     path.to_string_lossy().into_owned()
 }
 
-pub async fn read(path: impl AsRef<Path>) -> io::Result<Vec<u8>> {
-    let k = key(path.as_ref());
+pub fn read(path: impl AsRef<Path>) -> std::future::Ready<io::Result<Vec<u8>>> {
+    std::future::ready(read_now(path.as_ref()))
+}
+
+fn read_now(path: &Path) -> io::Result<Vec<u8>> {
+    let k = key(path);
     let s = store();
     s.read_log.push(k.clone());
     for (name, data) in s.files.iter() {
@@ -45,13 +49,17 @@ pub async fn read(path: impl AsRef<Path>) -> io::Result<Vec<u8>> {
     Err(io::Error::from(io::ErrorKind::NotFound))
 }
 
-pub async fn write(path: impl AsRef<Path>, contents: impl AsRef<[u8]>) -> io::Result<()> {
-    let k = key(path.as_ref());
+pub fn write(path: impl AsRef<Path>, contents: impl AsRef<[u8]>) -> std::future::Ready<io::Result<()>> {
+    std::future::ready(write_now(path.as_ref(), contents.as_ref()))
+}
+
+fn write_now(path: &Path, contents: &[u8]) -> io::Result<()> {
+    let k = key(path);
     let s = store();
     if s.fail_writes {
         return Err(io::Error::from(io::ErrorKind::PermissionDenied));
     }
-    let data = contents.as_ref().to_vec();
+    let data = contents.to_vec();
     s.write_log.push((k.clone(), data.clone()));
     for (name, old) in s.files.iter_mut() {
         if *name == k {
